@@ -236,11 +236,13 @@ func genTuples(rng *RNG, ncols int, agg bool) [][]gval {
 		}
 		return t[:ncols]
 	}
-	fam := rng.Intn(6)
+	fam := rng.Intn(7)
 	if fam == 2 && !agg {
 		fam = 3
 	}
 	switch fam {
+	case 6: // bytes that are not valid UTF-8 next to the separator / escape characters (c04utf8.go)
+		pool = utf8Tuples(rng, ncols)
 	case 0: // separator shift between (or inside) columns
 		sep := []string{"|", "|", "\x1f", ",", ":", "|6:nil||", "|string|", "|8:string|", "|nil||string|", "\\|", "\\", "\\N|"}[rng.Intn(12)]
 		x, y, z := rng.Pick([]string{"a", "x", "", "1"}), rng.Pick([]string{"b", "y", "", "2"}), rng.Pick([]string{"c", "z", ""})
@@ -641,6 +643,9 @@ func encoderCases(rng *RNG, o *Out, n int) error {
 				}
 			}
 			o.Count("encoder")
+			if isUTF8Pool([][]gval{t}) {
+				o.Count("encoder invalid-UTF-8 tuple")
+			}
 		}
 	}
 	return nil
@@ -673,13 +678,19 @@ func aggregatorCase(rng *RNG, o *Out) error {
 	if isFloatPool(pool) {
 		o.Count("aggregator near-float keys")
 	}
+	if isUTF8Pool(pool) {
+		o.Count("aggregator invalid-UTF-8 keys")
+	}
 	return nil
 }
 
 // session window through its API (processing time): every session is one batch of one key
-func sessionAPICase(rng *RNG) (string, error) {
+func sessionAPICase(rng *RNG, utf8Pool bool) (string, error) {
 	ncols := 1 + rng.Intn(3)
 	pool := genTuplesF(rng, ncols, false, 5)
+	if utf8Pool {
+		pool = utf8Tuples(rng, ncols)
+	}
 	rows := genRows(rng, pool, 2+rng.Intn(12), 1)
 	sw, err := window.NewSessionWindow(types.WindowConfig{Type: "session", Params: []any{60 * time.Millisecond}, GroupByKeys: keyNames(ncols)})
 	if err != nil {
@@ -901,7 +912,9 @@ func runC04(tier string, seed uint64, o *Out) error {
 	rng := NewRNG(seed)
 	nEnc, nAgg, nGlb, nSes, nSQL := 250, 1500, 250, 24, 12
 	nNamesT, nNamesG := 240, 24
+	nUTF := 48
 	if tier == "thorough" {
+		nUTF = 600
 		nEnc, nAgg, nGlb, nSes, nSQL = 3000, 30000, 3000, 200, 80
 		nNamesT, nNamesG = 3000, 120
 	}
@@ -960,6 +973,29 @@ func runC04(tier string, seed uint64, o *Out) error {
 		}
 		o.Line("C04 T sql-%s %d %d %d %s # %s", kind, n, ncols, len(rows), rowsTok(rows), resultsTok(res, true))
 		o.Count(fmt.Sprintf("sql-%s cols=%d", kind, ncols))
+		if rowsInvalidUTF8(rows) {
+			o.Count("sql-" + kind + " invalid-UTF-8 keys")
+		}
+	}
+	// invalid-UTF-8 keys next to '|' and backslash (c04utf8.go), own generator: counting and global window
+	// in turn, 1-3 grouping columns
+	urng := NewRNG(seed*9000011 + 41)
+	for i := 0; i < nUTF; i++ {
+		n := []int{1, 2, 2, 3}[urng.Intn(4)]
+		ncols := 1 + urng.Intn(3)
+		pool := utf8Tuples(urng, ncols)
+		l := 2 + urng.Intn(6*n)
+		if urng.Intn(3) == 0 {
+			l = n * (1 + urng.Intn(5))
+		}
+		rows := genRows(urng, pool, l, 1)
+		kind := []string{"counting", "global"}[i%2]
+		res, err := countingSQL(urng, kind, n, ncols, rows)
+		if err != nil {
+			return err
+		}
+		o.Line("C04 T sql-%s %d %d %d %s # %s", kind, n, ncols, len(rows), rowsTok(rows), resultsTok(res, true))
+		o.Count("sql-" + kind + " invalid-UTF-8 keys")
 	}
 	for i := 0; i < nGlb/3; i++ {
 		if err := fnKeyCase(rng, o); err != nil {
@@ -971,7 +1007,8 @@ func runC04(tier string, seed uint64, o *Out) error {
 	}
 	// timed cases run concurrently, each with its own generator derived from the seed
 	lines, err := parallel(nSes, 12, func(i int) (string, error) {
-		return sessionAPICase(NewRNG(seed*1000003 + uint64(i) + 17))
+		// every fourth case: an invalid-UTF-8 pool
+		return sessionAPICase(NewRNG(seed*1000003+uint64(i)+17), i%4 == 3)
 	})
 	if err != nil {
 		return err
